@@ -113,3 +113,8 @@ package phase4
 //@   loop range(l.Nodes)#1 index d
 //@     invariant forall j int :: 0 <= j && j < d ==> l.Nodes[j].Y == y
 //@     invariant forall k int, j int :: 0 <= k && k < a && 0 <= j && j < len(g.Layers[k].Nodes) ==> g.Layers[k].Nodes[j].Y == bandY(g, k, layerSpacing)
+
+// the block-maximum map is not the map being ranged over (needed for the order-independence check of that loop)
+//@ func execSinkColoring
+//@   loop range(xcoord)#1
+//@     invariant blockmax != nil && xcoord != nil && blockmax != xcoord
